@@ -148,6 +148,8 @@ IMM_FORMS = {   # three documented ways to say "this field cannot be reassigned 
     "field": "    imm: int = utype.Field(immutable=True, default=5)",
     "final": "    imm: Final[int] = 5",
     "final_field": "    imm: Final[int] = utype.Field(default=5, ge=0)",
+    # immutable AND kept out of the key view: the value lives in the attribute view only, and is as immutable there
+    "hidden_field": "    imm: int = utype.Field(immutable=True, no_output=True, default=5)",
 }
 
 
@@ -231,7 +233,7 @@ def check_invariants(inst, is_schema, options, initial_imm, step, inherit=False)
     if not present_req and SHAPE.get("req", "required") == "required":
         fails.append((f"required-field-missing/{step}", {}))
     # (3) immutable unchanged
-    cur = dict.get(inst, "imm", None) if is_schema else vars(inst).get("imm")
+    cur = dict.get(inst, "imm", None) if (is_schema and SHAPE.get("imm") != "hidden_field") else vars(inst).get("imm")
     if not oracle.equal(cur, initial_imm) and SHAPE.get("imm", "field") != "plain":
         fails.append((f"immutable-field-changed/{step}", {"initial": initial_imm, "now": codec.encode(cur)}))
     # (4) views agree
@@ -246,7 +248,7 @@ def check_invariants(inst, is_schema, options, initial_imm, step, inherit=False)
             continue
         if is_schema:
             in_keys = dict.__contains__(inst, out)
-            if att == "hidden":
+            if att == "hidden" or (att == "imm" and SHAPE.get("imm") == "hidden_field"):
                 if in_keys:
                     fails.append((f"no_output-field-in-key-view/{step}", {}))
             elif in_keys != has_attr:
@@ -391,7 +393,7 @@ def predict(op, inst, is_schema, options, inherit=False):
             return "refuse"
         out = FIELDS[att][0]
         present = dict.__contains__(inst, out) if is_schema else att in vars(inst)
-        if att == "hidden" and is_schema:
+        if (att == "hidden" or (att == "imm" and SHAPE.get("imm") == "hidden_field")) and is_schema:
             return None
         if not present:
             if k == "pop":
@@ -424,7 +426,7 @@ def run_case(case):
         if made[0] != "ok":
             return {"status": "init-rejected", "fails": [], "applied": 0}
         inst = made[1]
-        initial_imm = dict.get(inst, "imm") if is_schema else vars(inst).get("imm")
+        initial_imm = dict.get(inst, "imm") if (is_schema and SHAPE.get("imm") != "hidden_field") else vars(inst).get("imm")
         fails = check_invariants(inst, is_schema, options, initial_imm, "after-init", inherit)
         applied, refused, interesting = 0, 0, False
         deleted = False
@@ -545,7 +547,7 @@ def cases(draw):
         init.append(["zz", draw(st.sampled_from([1, "7"]))])
     ops = draw(st.lists(op_specs(base == "Schema"), min_size=1, max_size=12))
     case = {"base": base, "options": options, "init": init, "ops": ops}
-    imm = draw(st.sampled_from(["field", "field", "final", "final_field", "plain"]))
+    imm = draw(st.sampled_from(["field", "field", "final", "final_field", "plain", "hidden_field"]))
     if imm != "field":
         case["imm"] = imm
     if draw(st.sampled_from([False, False, True])):
